@@ -55,6 +55,9 @@ pub mod polling {
             requires self.may_modify(fd_raw(&source), interest, mode),
             ensures r is Ok ==> self.w_modified(fd_raw(&source), interest, mode),
         { unimplemented!() }
+        /// ASSUMED: re-arms a registered source (level-trigger emulation only); may fail.
+        #[verifier::external_body]
+        pub fn modify<S: std::os::unix::io::AsFd>(&self, source: S, interest: Event) -> (r: std::io::Result<()>) { unimplemented!() }
         /// ASSUMED: removes the source from the kernel's interest list; may fail. No visible state (DESIGN 1.4).
         #[verifier::external_body]
         pub fn delete<S: std::os::unix::io::AsFd>(&self, source: S) -> (r: std::io::Result<()>)
